@@ -50,6 +50,10 @@ CONSTANTS Platforms,   \* subset of {"default", "plat"}: the platform the instan
           UserVars,    \* subset of {"none", "global", "stage"}: user variable file given at creation
           Repls,       \* subset of BOOLEAN: does a component replicate (factor = variable n, which "global" user variables override)
           LoopsC,      \* subset of BOOLEAN: does the package import a DoWhile document
+          Formats,     \* subset of {"flowir", "dosini"}: the package format (dosini: the legacy conf/experiment.conf + stages.d format,
+                       \* stored to and reloaded from conf/experiment.instance.conf + conf/stages.d/stageN.instance.conf)
+          Stales,      \* subset of BOOLEAN: does conf/ of the package already carry a flowir_instance.yaml (of an old, different instance)
+          ReparamTo,   \* subset of {"default", "plat"}: platforms an existing instance may be re-parametrised for (action Reparam)
           Empties,     \* subset of {"absent", "empty"}: does a component set options explicitly to empty / zero / false (see Explicit)
           Blueprints,  \* subset of {"g", "gs", "sP", "all"}: which blueprint layers define the same option (see Defines)
           MaxIter,     \* loop iterations beyond iteration 0 (kept below 10: see C05)
@@ -64,7 +68,12 @@ VARIABLES pk,    \* the package and creation options (constant along a behaviour
 vars == <<pk, mem, disk, hist>>
 view == <<pk, mem, disk>>
 
-Packages == [plat : Platforms, uv : UserVars, repl : Repls, loop : LoopsC, bp : Blueprints, ex : Empties]
+PackageSpace == [plat : Platforms, uv : UserVars, repl : Repls, loop : LoopsC, bp : Blueprints, ex : Empties,
+                 fmt : Formats, stale : Stales]
+(* the legacy format is explored for the default platform, without loops (it has none), blueprint layers and stale files *)
+ValidPackage(p) == p.fmt = "dosini" => (p.plat = "default" /\ ~p.loop /\ p.bp = "g" /\ ~p.stale)
+Packages == {p \in PackageSpace : ValidPackage(p)}
+AllPlatforms == {"default", "plat"}
 (* `loaded`: were the live objects rebuilt from the directory (Load) or made from the package (Create).  It is     *)
 (* part of the state (so that TLC also takes every step from a reloaded experiment) but no observable fact may     *)
 (* depend on it; the directory never records it.                                                                   *)
@@ -111,15 +120,21 @@ LzPrefix(p, d) == IF ~(p.repl \/ p.loop) THEN "" ELSE IF d.plat = "plat" THEN "p
 (*   hook: workflowAttributes.restartHookOn (built-in [ResourceExhausted]);  shut: workflowAttributes.shutdownOn       *)
 (*   (global blueprint [KnownIssue]);  retries: repeatRetries (built-in 3);  memo: memoization.disable.strong          *)
 (*   (global blueprint true);  es / zero / flag: component variables over the global "text" / 5 / true.                *)
+Unset == -1
 Explicit(p) == IF p.ex = "empty"
-               THEN [hook |-> <<>>, shut |-> <<>>, retries |-> 0, memo |-> FALSE, es |-> "", zero |-> 0, flag |-> FALSE]
-               ELSE [hook |-> <<"ResourceExhausted">>, shut |-> <<"KnownIssue">>, retries |-> 3, memo |-> TRUE,
+               THEN [hook |-> <<>>, shut |-> <<>>, retries |-> 0, maxr |-> 0, memo |-> FALSE, es |-> "", zero |-> 0, flag |-> FALSE]
+               ELSE [hook |-> <<"ResourceExhausted">>, shut |-> <<"KnownIssue">>, retries |-> 3, maxr |-> Unset, memo |-> TRUE,
                      es |-> "text", zero |-> 5, flag |-> TRUE]
+(* the same for a legacy package (what its format can express): max-restarts=0, repeatRetries=0, resolvePath=false, an    *)
+(* empty variable, a variable "0"; maxRestarts that is not set is None (Unset), which is not 0 ("never restart")           *)
+DExplicit(p) == IF p.ex = "empty"
+                THEN [retries |-> 0, maxr |-> 0, rpath |-> FALSE, es |-> "", zero |-> "0"]
+                ELSE [retries |-> 3, maxr |-> Unset, rpath |-> TRUE, es |-> "text", zero |-> "5"]
 
 View(p, d) == [live |-> d.live, plat |-> d.plat, uv |-> UvVal(d), pv |-> PvVal(d), sv |-> SvVal(d),
                nrep |-> Replicas(p, d), wall |-> Walltime(d), ovr |-> Override(d), pp |-> PpVal(d), iters |-> d.iters,
                threads |-> Threads(p, d), threads2 |-> Threads2(p, d), lzp |-> LzPrefix(p, d),
-               opt |-> Explicit(p)]
+               opt |-> Explicit(p), dopt |-> DExplicit(p)]
 
 ---------------------------------------------------------------------------
 Init == /\ pk \in Packages
@@ -137,12 +152,12 @@ Iterate(store) == /\ mem.live /\ pk.loop /\ mem.iters < MaxIter
                   /\ hist' = Append(hist, [a |-> "Iterate", flag |-> store])
                   /\ UNCHANGED pk
 
-Patch == /\ mem.live /\ mem.patch < MaxPatch
+Patch == /\ mem.live /\ mem.patch < MaxPatch /\ pk.fmt = "flowir"
          /\ mem' = [mem EXCEPT !.patch = @ + 1]
          /\ hist' = Append(hist, [a |-> "Patch", flag |-> FALSE])
          /\ UNCHANGED <<pk, disk>>
 
-Store == /\ mem.live
+Store == /\ mem.live /\ pk.fmt = "flowir"
          /\ disk' = Norm(mem)
          /\ hist' = Append(hist, [a |-> "Store", flag |-> FALSE])
          /\ UNCHANGED <<pk, mem>>
@@ -154,7 +169,19 @@ Load(update) == /\ disk.live
                 /\ hist' = Append(hist, [a |-> "Load", flag |-> update])
                 /\ UNCHANGED pk
 
+(* The instance directory is loaded again as a *package* for another platform with updateInstanceConfiguration=True *)
+(* (what `elaunch --restart` does when the platform changed): Experiment(dir, platform=q, is_instance=False,          *)
+(* updateInstanceConfiguration=True).  The experiment is rebuilt from the package description kept in the directory   *)
+(* and the user variables in input/ (loop iterations and patches are gone) and it stores its OWN description over     *)
+(* the existing one: a second store on an existing instance.                                                          *)
+Reparam(q) == /\ disk.live /\ pk.fmt = "flowir" /\ q # mem.plat /\ q \in ReparamTo
+              /\ mem' = [live |-> TRUE, plat |-> q, uv |-> disk.uv, iters |-> 0, patch |-> 0, loaded |-> TRUE]
+              /\ disk' = Norm(mem')
+              /\ hist' = Append(hist, [a |-> "Reparam", flag |-> (q = "plat")])
+              /\ UNCHANGED pk
+
 Next == \/ Create \/ Patch \/ Store
+        \/ \E q \in AllPlatforms : Reparam(q)
         \/ \E s \in BOOLEAN : Iterate(s)
         \/ \E u \in BOOLEAN : Load(u)
 Spec == Init /\ [][Next]_vars
@@ -172,8 +199,13 @@ LoadYieldsStored == [][(\E u \in BOOLEAN : Load(u)) => Norm(mem') = disk]_vars
 (* "Loading and storing again does not change the stored description" *)
 LoadStoreIdempotent == [][(\E u \in BOOLEAN : Load(u)) => disk' = disk]_vars
 (* "including user-supplied variables, the selected platform ..." *)
-CreationOptionsSurvive == /\ mem.live => (mem.plat = pk.plat /\ mem.uv = pk.uv)
-                          /\ disk.live => (disk.plat = pk.plat /\ disk.uv = pk.uv)
+(* the user variables always; the platform until another one is selected (Reparam), which memory and directory then share *)
+CreationOptionsSurvive == /\ mem.live => mem.uv = pk.uv
+                          /\ disk.live => (disk.uv = pk.uv /\ disk.plat = mem.plat)
+PlatformOnlyChangesByReparam == [][(mem.live /\ ~\E q \in AllPlatforms : Reparam(q)) => mem'.plat = mem.plat]_vars
+(* every action that the API says stores (Create, Store, Iterate(store), Load(update), Reparam) leaves the directory with *)
+(* the description of the experiment that performed it -- also when a description is already there (pk.stale, Reparam)   *)
+LastStoreWins == [][(Create \/ Store \/ Iterate(TRUE) \/ Load(TRUE) \/ \E q \in AllPlatforms : Reparam(q)) => disk' = Norm(mem')]_vars
 TypeOK == /\ pk \in Packages
           /\ mem.iters \in 0 .. MaxIter /\ disk.iters \in 0 .. MaxIter
           /\ mem.patch \in 0 .. MaxPatch /\ disk.patch \in 0 .. MaxPatch
